@@ -32,7 +32,7 @@
 EXTENDS SqlSem, Json
 
 CONSTANTS Tier,      \* "quick" | "thorough": size of the feature space
-          Data,      \* "small" | "nullkey" | "rows3": which tables are explored
+          Data,      \* "small" | "pairs" | "nullkey" | "rows3": which tables are explored
           Mutant,    \* "none" or the name of a planner mutant
           Space,     \* "sound" (known-defective shapes excluded) | "all" | "shadow" | "wrap" | "qualtopn"
           Mode       \* "check" | "emit"
@@ -142,6 +142,10 @@ GatherSub ==    \* refused (gathered) statements with a subquery over the dimens
                                   [F0 EXCEPT !.fam = "agg", !.grp = 1, !.aggs = <<A("count*", 0, "v")>>, !.hav = "alias"]},
                           s \in {"sd", "ind", "exd"}}
 
+Off2 ==         \* OFFSET 2 / LIMIT 2 only bite on tables of >= 3 rows: a small slice that the 3-row configuration explores
+  {[F0 EXCEPT !.ord = o, !.desc = d, !.lim = l, !.off = 2] : o \in {"none", "v"}, d \in {0, 1}, l \in {-1, 1, 2, U - 1}}
+  \cup {[F0 EXCEPT !.fam = "agg", !.grp = 1, !.aggs = <<A("sum", 0, "v")>>, !.ord = "a1", !.desc = 1, !.lim = l, !.off = 2] : l \in {-1, 1}}
+
 WellFormed(f) ==
   /\ (f.hav = "key" => f.grp = 1)
   /\ (f.selx = "sumpair" => Len(f.aggs) = 2)
@@ -152,7 +156,7 @@ WellFormed(f) ==
   /\ (f.hav = "alias" => f.aggs[1].fn # "avg")
 AllFeatures ==
   {f \in (IF Tier = "thorough" THEN PlainCore \cup AggCore \cup AggOrder ELSE PlainCoreQ \cup AggCoreQ \cup AggOrderQ)
-         \cup GrpForms \cup SrcSlice \cup SubSlice \cup WrapSlice \cup GatherSub : WellFormed(f)}
+         \cup GrpForms \cup SrcSlice \cup SubSlice \cup WrapSlice \cup GatherSub \cup Off2 : WellFormed(f)}
 
 \* ------------------------------------------------------------- Stmt(f) --------
 \* the statement a feature record denotes, as a SqlSem AST (the single-node meaning)
@@ -434,10 +438,10 @@ GatherAnswer(q, tab, T, D, g) ==
       all == Flat([s \in 1..NShards |-> ShardOf(R, g, s)])
   IN Answer(q, IF tab = "t" THEN EnvTD(all, D) ELSE EnvTD(T, all))
 
-Skips == IF Data = "small" THEN {0, 1} ELSE {1}
+Skips == IF Data \in {"small", "pairs"} THEN {0, 1} ELSE {1}
 \* the big-table configurations fix the first row on shard 1 (the two shards are interchangeable up to concatenation order)
 Shardings(P, T, D) == LET n == Len(IF P.table = "t" THEN T ELSE D) IN
-                      {g \in [1..n -> 1..NShards] : Data = "small" \/ n = 0 \/ g[1] = 1}
+                      {g \in [1..n -> 1..NShards] : Data \in {"small", "pairs"} \/ n = 0 \/ g[1] = 1}
 ExactOn(q, P, T, D) ==
   \A g \in Shardings(P, T, D) : \A skip \in Skips :
      IF P.shape = "Refuse" THEN Allowed(q, EnvTD(T, D), GatherAnswer(q, P.table, T, D, g))
@@ -451,7 +455,7 @@ MaxRows(data) == IF data = "rows3" THEN 3 ELSE 2
 \* one sequence per multiset (rows in non-decreasing order), placements still range over every assignment of rows to shards
 RowLe(a, b) == a[1] < b[1] \/ (a[1] = b[1] /\ a[2] <= b[2])
 TabsOf(data) == LET all == UNION {[1..n -> {<<k, v>> : k \in KeysOf(data), v \in ValsOf(data)}] : n \in 0..MaxRows(data)}
-                IN IF data = "small" THEN all ELSE {T \in all : \A i \in 1..(Len(T) - 1) : RowLe(T[i], T[i + 1])}
+                IN IF data = "small" THEN all ELSE {T \in all : \A i \in 1..(Len(T) - 1) : RowLe(T[i], T[i + 1])}     \* ("pairs" = "small" up to row order)
 Tabs == TabsOf(Data)
 DimTabs == IF Tier = "thorough" /\ Data = "small"
            THEN {<<>>, << <<0, 1>> >>, << <<0, 1>>, <<0, 2>>, <<2, 1>> >>, << <<1, 1>>, <<NULL, 2>> >>}
